@@ -7,6 +7,7 @@ import (
 	"context"
 	"fmt"
 	"os"
+	"runtime"
 	"sort"
 	"strings"
 	"sync"
@@ -44,6 +45,7 @@ type smCaller struct {
 	err      int
 	ch       chan struct{}
 	accept   bool
+	fresh    bool // AcceptStream call whose OAcceptCall step is not emitted yet (started inside a hook)
 	panicked atomic.Value
 }
 
@@ -62,6 +64,9 @@ type smCase struct {
 	waiters   []*smCaller // parked OpenStreamSync callers, arrival order (all generations)
 	acceptors []*smCaller // parked AcceptStream callers
 	nextW     int64
+	nextA     int64 // AcceptStream caller ids
+	lateFr    []quic.VerifSMFrame // frames queued by callers that ran inside an external op (accept storm)
+	storms    [3]int
 
 	// shadow state of the monitors (wire- / API-visible facts only)
 	advIn     [2]int64          // highest MAX_STREAMS count advertised to the peer (initial: configured limit)
@@ -268,6 +273,7 @@ func (c *smCase) collect(frameFrom, createdFrom int) {
 			adone = append(adone, x)
 		}
 	}
+	// streams are handed out in ID order, so the ID order is the order of the critical sections
 	sort.SliceStable(adone, func(i, j int) bool {
 		a, b := adone[i], adone[j]
 		if (a.err == 0) != (b.err == 0) {
@@ -289,12 +295,127 @@ func (c *smCase) collect(frameFrom, createdFrom int) {
 				break
 			}
 		}
-		c.step(u.App("OAcceptWake", u.B(x.uni), u.B(x.gen != c.gen)), smRes(x.id, x.err, false), nil, "acceptwake")
+		op := "OAcceptWake"
+		if x.fresh {
+			op, x.fresh = "OAcceptCall", false
+		}
+		// a caller that is handed a stream which was completed before is the one that queues the
+		// MAX_STREAMS for it; GetOrOpenStream never queues a frame
+		var xfr []quic.VerifSMFrame
+		if x.err == 0 && c.deleted[x.id] && len(c.lateFr) > 0 {
+			xfr, c.lateFr = c.lateFr[:1], c.lateFr[1:]
+		}
+		c.step(u.App(op, u.B(x.uni), u.Z(x.w)), smRes(x.id, x.err, false), xfr, fmt.Sprintf("%s(a%d)", strings.ToLower(op[1:]), x.w))
+	}
+	if len(c.lateFr) > 0 {
+		c.monfail("frame/unattributed", fmt.Sprintf("%d control frames were queued that no step accounts for", len(c.lateFr)))
+		c.lateFr = nil
+	}
+	// callers started inside a hook that are now blocked: their call is reported here
+	for _, x := range c.acceptors {
+		if x.fresh {
+			x.fresh = false
+			c.step(u.App("OAcceptCall", u.B(x.uni), u.Z(x.w)), "RParked", nil, fmt.Sprintf("acceptcall(a%d)", x.w))
+		}
 	}
 	// frames queued by woken callers would be unattributed: there must be none
 	if n := c.v.NumFrames(); n != frameFrom {
 		c.monfail("frame/queued-by-wakeup", "a control frame was queued by a woken blocked caller")
 	}
+}
+
+// one AcceptStream / AcceptUniStream call from a new goroutine
+func (c *smCase) acceptCall(uni bool) {
+	x := &smCaller{uni: uni, gen: c.gen, accept: true, w: c.nextA}
+	c.nextA++
+	ctx, cancel := context.WithCancel(context.Background())
+	x.cancel = cancel
+	fr, fe, cf := c.ext(func() { c.spawn(x, ctx) })
+	op := u.App("OAcceptCall", u.B(uni), u.Z(x.w))
+	if x.finished.Load() {
+		if p := x.panicked.Load(); p != nil {
+			c.monfail("panic", fmt.Sprintf("AcceptStream panicked: %v", p))
+		}
+		if x.err == 0 {
+			c.monAccepted(uni, x.id)
+		}
+		c.step(op, smRes(x.id, x.err, false), fr, fmt.Sprintf("accept(%v,a%d)", uni, x.w))
+	} else {
+		c.acceptors = append(c.acceptors, x)
+		c.step(op, "RParked", fr, fmt.Sprintf("accept(%v,a%d)", uni, x.w))
+	}
+	c.collect(fe, cf)
+}
+
+// tryAcceptStorm: 2-4 concurrent AcceptStream callers of one type and a frame that opens 1-4
+// streams at once. mode 0: the callers are parked in the select beforehand; mode 1: they start
+// while GetOrOpenStream holds the map's mutex (hook in the stream constructor) and queue up on
+// it; mode 2: both. Every opened stream must be handed out exactly once, in ID order, and no
+// caller may stay blocked while a stream is waiting.
+func (c *smCase) tryAcceptStorm() bool {
+	r, v := c.r, c.v
+	if c.closed || c.reset {
+		return false
+	}
+	uni := r.Bool()
+	in := v.SnapIn(uni)
+	if in.Closed {
+		return false
+	}
+	o := in.NextOpen / 4
+	var m int64
+	if in.Max >= 0 {
+		m = in.Max/4 + 1
+	}
+	room := m - o
+	if room < 1 {
+		return false
+	}
+	j := int64(1 + r.Intn(int(smMin64(room, 4))))
+	id := smFirst(uni, !c.client) + 4*(o+j-1)
+	mode := r.Intn(3)
+	c.storms[mode]++
+	if mode != 1 {
+		for i, k := 0, r.Range(2, 4); i < k; i++ {
+			c.acceptCall(uni)
+		}
+	}
+	var hooked []*smCaller
+	if mode != 0 {
+		k := r.Range(2, 4)
+		var started atomic.Int32
+		var once sync.Once
+		v.SetOnCreate(func(int64) {
+			once.Do(func() {
+				for i := 0; i < k; i++ {
+					x := &smCaller{uni: uni, gen: c.gen, accept: true, fresh: true, w: c.nextA}
+					c.nextA++
+					ctx, cancel := context.WithCancel(context.Background())
+					x.cancel = cancel
+					hooked = append(hooked, x)
+					go func() {
+						started.Add(1)
+						c.run(x, ctx)
+					}()
+				}
+				// let them run until they queue up on the mutex this goroutine holds (a goroutine
+				// blocked on a mutex is not durably blocked, so synctest.Wait cannot be used here)
+				for i := 0; i < 4000 && (int(started.Load()) < k || i < 1500); i++ {
+					runtime.Gosched()
+				}
+			})
+		})
+	}
+	var got int64
+	var e int
+	fr, fe, cf := c.ext(func() { got, e = v.Recv(id) })
+	v.SetOnCreate(nil)
+	c.monFrameDispatch(id, got, e, true)
+	c.step(u.App("ORecv", u.Z(id)), smRes(got, e, false), nil, fmt.Sprintf("recv(%d)", id))
+	c.lateFr = fr
+	c.acceptors = append(c.acceptors, hooked...)
+	c.collect(fe, cf)
+	return true
 }
 
 func (c *smCase) monAccepted(uni bool, id int64) {
@@ -333,6 +454,9 @@ func (c *smCase) monState() {
 			if x.uni == (t == 1) && x.gen == c.gen {
 				na++
 			}
+		}
+		if na > 0 && in.Closed {
+			c.monfail("accept/blocked-after-close", fmt.Sprintf("%d AcceptStream callers stay blocked after CloseWithError", na))
 		}
 		if na > 0 && !in.Closed && c.accepted[t] < o {
 			c.monfail("accept/stuck", fmt.Sprintf("%d AcceptStream callers stay blocked although the peer opened %d streams and %d were accepted", na, o, c.accepted[t]))
@@ -573,20 +697,22 @@ func (c *smCase) blockedCheck(uni bool, what string, _ []quic.VerifSMFrame) {
 }
 
 func (c *smCase) spawn(x *smCaller, ctx context.Context) {
-	go func() {
-		defer func() {
-			if p := recover(); p != nil {
-				x.panicked.Store(fmt.Sprint(p))
-				x.err = 7
-			}
-			x.finished.Store(true)
-		}()
-		if x.accept {
-			x.id, x.err = c.v.Accept(ctx, x.uni)
-		} else {
-			x.id, x.err = c.v.OpenSync(ctx, x.uni)
+	go c.run(x, ctx)
+}
+
+func (c *smCase) run(x *smCaller, ctx context.Context) {
+	defer func() {
+		if p := recover(); p != nil {
+			x.panicked.Store(fmt.Sprint(p))
+			x.err = 7
 		}
+		x.finished.Store(true)
 	}()
+	if x.accept {
+		x.id, x.err = c.v.Accept(ctx, x.uni)
+	} else {
+		x.id, x.err = c.v.OpenSync(ctx, x.uni)
+	}
 }
 
 // pickID chooses a stream ID for a frame / completion, biased to the boundaries.
@@ -676,6 +802,9 @@ func (c *smCase) doOp() {
 	v := c.v
 	f := c.forced
 	if f == nil && r.Chance(1, 14) && c.tryRace() {
+		return
+	}
+	if f == nil && r.Chance(1, 10) && c.tryAcceptStorm() {
 		return
 	}
 	k := r.Intn(100)
@@ -769,23 +898,7 @@ func (c *smCase) doOp() {
 		if f != nil {
 			uni = f.uni
 		}
-		x := &smCaller{uni: uni, gen: c.gen, accept: true}
-		ctx, cancel := context.WithCancel(context.Background())
-		x.cancel = cancel
-		fr, fe, cf := c.ext(func() { c.spawn(x, ctx) })
-		if x.finished.Load() {
-			if p := x.panicked.Load(); p != nil {
-				c.monfail("panic", fmt.Sprintf("AcceptStream panicked: %v", p))
-			}
-			if x.err == 0 {
-				c.monAccepted(uni, x.id)
-			}
-			c.step(u.App("OAcceptCall", u.B(uni)), smRes(x.id, x.err, false), fr, fmt.Sprintf("accept(%v)", uni))
-		} else {
-			c.acceptors = append(c.acceptors, x)
-			c.step(u.App("OAcceptCall", u.B(uni)), "RParked", fr, fmt.Sprintf("accept(%v)", uni))
-		}
-		c.collect(fe, cf)
+		c.acceptCall(uni)
 	case k < 68: // OpenStream
 		uni := r.Bool()
 		if f != nil {
@@ -883,7 +996,7 @@ func (c *smCase) doOp() {
 				break
 			}
 		}
-		c.step("OAcceptCancel", smRes(x.id, x.err, false), fr, "acceptcancel")
+		c.step(u.App("OAcceptCancel", u.B(x.uni), u.Z(x.w)), smRes(x.id, x.err, false), fr, fmt.Sprintf("acceptcancel(a%d)", x.w))
 		c.collect(fe, cf)
 	case k < 96: // MAX_STREAMS
 		uni := r.Bool()
@@ -1004,6 +1117,17 @@ func (c *smCase) monFrameDispatch(id, got int64, e int, recv bool) {
 	if e == 0 && got >= 0 && got != id {
 		c.monfail("dispatch/wrong-stream", fmt.Sprintf("%s-side frame for stream %d was dispatched to stream %d", kind, id, got))
 	}
+}
+
+func (c *smCase) snapIn(uni bool) string {
+	var parked []int64
+	for _, x := range c.acceptors {
+		if x.uni == uni && x.gen == c.gen {
+			parked = append(parked, x.w)
+		}
+	}
+	s := smSnapIn(c.v.SnapIn(uni))
+	return s[:len(s)-1] + ", " + u.ZList(parked) + ")"
 }
 
 func smSnapIn(s quic.VerifSMIn) string {
@@ -1141,7 +1265,7 @@ func runSMCase(w *bufio.Writer, r *u.Rng, dist map[string]int, script *smScript)
 			c.flush()
 		}
 		final := u.App("SMCase", u.B(c.client), u.Z(c.maxIn[0]), u.Z(c.maxIn[1]), u.List(c.steps),
-			smSnapIn(c.v.SnapIn(false)), smSnapIn(c.v.SnapIn(true)), c.snapOut(c.v.SnapOut(false)), c.snapOut(c.v.SnapOut(true)), u.B(c.v.IsReset()))
+			c.snapIn(false), c.snapIn(true), c.snapOut(c.v.SnapOut(false)), c.snapOut(c.v.SnapOut(true)), u.B(c.v.IsReset()))
 		nt := 0
 		if c.nframes > 0 || c.nwakes > 0 {
 			nt = 1
@@ -1160,6 +1284,9 @@ func runSMCase(w *bufio.Writer, r *u.Rng, dist map[string]int, script *smScript)
 		if c.gen > 0 {
 			dist["with-0rtt-reset"]++
 		}
+		dist["accept-storm-parked"] += c.storms[0]
+		dist["accept-storm-queued-on-mutex"] += c.storms[1]
+		dist["accept-storm-both"] += c.storms[2]
 		dist["race-token-taken"] += c.raceTaken[0]
 		dist["race-cancel-with-token-pending"] += c.raceTaken[1]
 		if c.closed {
